@@ -3,8 +3,8 @@
 From Coq Require Import List Bool Arith NArith ZArith String.
 From Coq.Strings Require Import Byte.
 From Verif.Base Require Import Bytes Outcome Str.
-From Verif.Model Require Import IE Codec Record SetB Msg.
-From Verif.Proofs Require Import SetB_lemmas C16_lemmas.
+From Verif.Model Require Import IE Codec Record SetB Msg SetDec.
+From Verif.Proofs Require Import SetB_lemmas C16_lemmas SetDec_lemmas C16dec_lemmas.
 From Verif.Driver Require Import Show SetShow C16drv.
 Import ListNotations.
 Local Open Scope N_scope.
@@ -95,3 +95,51 @@ Example C16_wf_order_needed :
   wf_order false ops = false /\
   s_len (run new_set ops) <> s_len (run new_set (OReset :: ops)).
 Proof. vm_compute. split; [reflexivity|discriminate]. Qed.
+
+(* ---- the decoding variant of the builders (NewSet(true), used by the collector) ---- *)
+(* A decoding set that is not a template set (prepared as a data set; any later operations
+   except PrepareSet(Template)) keeps its length whatever is added with any of the three add
+   forms, and every record it holds has length 0 and the nil buffer: nothing is encoded. *)
+Theorem C16_dec_data_sets : forall ops s,
+  d_type s <> STemplate -> no_tpl_prepare ops = true ->
+  Forall (fun r => dr_len r = 0 /\ dr_buffer r = Ok []) (d_rrecs s) ->
+  d_len (drun s ops) = d_len s /\
+  Forall (fun r => dr_len r = 0 /\ dr_buffer r = Ok []) (d_rrecs (drun s ops)).
+Proof. exact dec_data_sets. Qed.
+Print Assumptions C16_dec_data_sets.
+
+(* The length of a decoding set, for EVERY operation sequence: at least the sum of the present
+   records' lengths, and equal to it until the first ResetSet (which clears type and records
+   but not the length: the exporting side's law "4 + sum" does not hold for decoding sets). *)
+Theorem C16_dec_length : forall ops,
+  sum_dr_len (d_rrecs (drun dnew ops)) <= d_len (drun dnew ops) /\
+  (has_reset ops = false -> d_len (drun dnew ops) = sum_dr_len (d_rrecs (drun dnew ops))).
+Proof.
+  exact (fun ops => conj (dec_length_ge ops dnew (N.le_refl 0))
+                         (fun H => dec_length_eq ops dnew H eq_refl)).
+Qed.
+Print Assumptions C16_dec_length.
+
+Theorem C16_dec_reset_keeps_length : forall s,
+  d_len (fst (dstep s OReset)) = d_len s /\ d_rrecs (fst (dstep s OReset)) = [].
+Proof. exact dec_reset_keeps_length. Qed.
+
+(* the three add forms are interchangeable on a decoding set too *)
+Theorem C16_dec_add_forms : forall ops g s,
+  forms_hyp (d_type s) ops = true -> Forall (fun f => form_ok f = true) g ->
+  drun s (reform g ops) = drun s ops.
+Proof. exact dreform_run. Qed.
+Print Assumptions C16_dec_add_forms.
+
+(* the per-case oracle of the decoding cases holds on the model's observation of every case *)
+Theorem C16_decoding_builder : forall ds,
+  C16D_holds_on ds [] (c16d_items ds dnew []) = true.
+Proof. exact C16_decoding_builder_lemma. Qed.
+Print Assumptions C16_decoding_builder.
+
+Example C16_dec_nonvacuous :
+  let ops := [OPrepare SData 256; OAdd FV2 [ex_d1; ex_d2] 256; OAdd FV1 [ex_d1] 256] in
+  d_len (drun dnew ops) = 0 /\ List.length (d_rrecs (drun dnew ops)) = 2%nat /\
+  (* stale length after a reset of a decoding template set *)
+  d_len (drun dnew [OPrepare STemplate 256; OAdd FV1 [ex_e1; ex_e2] 256; OReset]) = 16.
+Proof. vm_compute. repeat split. Qed.
